@@ -293,7 +293,50 @@ fn length_sweep<V: Fv>(ctx: &Ctx, rep: &mut Report) {
     rep.merge(r);
 }
 
+/// (salt, message) pairs whose SHAKE stream rejects unusually many chunks early (selected with
+/// the harness's own SHAKE): the salt is dictated to the signer through the generator hook; the
+/// reference must accept the signature. Signer and verifier of one library share their
+/// hash-to-point, so only an independent implementation notices a wrong tail of the hash.
+fn extreme_hash_signatures<V: Fv>(ctx: &Ctx, rep: &mut Report) {
+    let (keys, _) = crate::pool::keys::<V>(ctx.seed, "c16-xs", 2);
+    if keys.is_empty() {
+        return;
+    }
+    let xs = super::c14::extreme_inputs(ctx.seed ^ 0x1616, ctx.sz(6_000_000, 200_000_000), ctx.sz(300, 4000));
+    let r = par_for(xs.len(), ncpu(), |i, rep| {
+        let (chunks, s) = &xs[i];
+        let k = &keys[i % keys.len()];
+        let pkb = V::pk_to_bytes(&k.pk);
+        let msg = &s[40..];
+        let strat = crate::gen::Strategy::ForcedSalt { salt: s[..40].to_vec() };
+        let rng = crate::gen::ScriptedRng::new(ctx.seed, &format!("c16-xs-{}-{}", V::NAME, i), strat, crate::signer::progress_budget(V::N));
+        let out = crate::signer::sign_scripted::<V>(msg, &k.sk, rng, false, 0);
+        rep.evaluations += 1;
+        if let Ok(sig) = out.sig {
+            let sb = V::sig_to_bytes(&sig);
+            if sb[1..41] != s[..40] {
+                rep.count("extreme_hash_salt_not_taken", 1);
+                return;
+            }
+            match V::pq_verify(&reframe_to_pq(&sb, V::LOGN), msg, &pkb) {
+                Some(true) => rep.count("extreme_hash_own_sig_accepted_by_reference", 1),
+                other => rep.violation(
+                    "interop:reference-rejects-own-signature",
+                    format!("{}: PQClean result {:?} for a falcon-rust signature whose (salt, message) was selected for its many early rejections (selection score {})", V::NAME, other, chunks),
+                    json!({"variant": V::NAME, "dir": "own-sig", "seed": hex(&k.seed), "msg": hex(msg), "sig": hex(&sb)}),
+                ),
+            }
+            rep.stat_max("extreme_hash_selection_score_max", *chunks as f64);
+            rep.nontrivial(s);
+        }
+    });
+    rep.merge(r);
+}
+
 pub fn interop(ctx: &Ctx, rep: &mut Report) {
+    extreme_hash_signatures::<F512>(ctx, rep);
+    extreme_hash_signatures::<F1024>(ctx, rep);
+    rep.require("extreme_hash_own_sig_accepted_by_reference", 200);
     length_sweep::<F512>(ctx, rep);
     length_sweep::<F1024>(ctx, rep);
     rep.require("length_sweep_own_sig_accepted_by_reference", 500);
